@@ -124,7 +124,7 @@ func c15Exclusive(snap vP4Snap) []mMismatch {
 }
 
 // c15Conservation reads the pools in-package (quiesced): per pool |free| + |in use| = size, no id free and in use.
-func c15Conservation(a *vAgent) []mMismatch {
+func c15Conservation(a *vAgent, taken map[string]int) []mMismatch {
 	var out []mMismatch
 	a.quiesced(func() {
 		up4, ok := a.iface.fp.(*UP4)
@@ -155,10 +155,10 @@ func c15Conservation(a *vAgent) []mMismatch {
 			}
 		}
 		// cells never leave their pool: |free| + |in use| = size (cells 1..size-1)
-		if want := int(1023); up4.appMeterCellIDsPool.Cardinality()+len(appUse) != want {
+		if want := int(1023) - taken["app_meter"]; up4.appMeterCellIDsPool.Cardinality()+len(appUse) != want {
 			out = append(out, mMismatch{"C15.R3", "app-meter-cells-left-their-pool", fmt.Sprintf("app_meter pool: %d free + %d in use != %d: cells were released into another pool or lost", up4.appMeterCellIDsPool.Cardinality(), len(appUse), want)})
 		}
-		if want := int(1023); up4.sessMeterCellIDsPool.Cardinality()+len(sessUse) != want {
+		if want := int(1023) - taken["session_meter"]; up4.sessMeterCellIDsPool.Cardinality()+len(sessUse) != want {
 			out = append(out, mMismatch{"C15.R3", "session-meter-cells-left-their-pool", fmt.Sprintf("session_meter pool: %d free + %d in use != %d", up4.sessMeterCellIDsPool.Cardinality(), len(sessUse), want)})
 		}
 		up4.tunnelPeerMu.Lock()
@@ -193,6 +193,113 @@ func c15Conservation(a *vAgent) []mMismatch {
 	return out
 }
 
+// c15SwitchVsPools: an identifier carried by an entry the switch still holds must not be in the agent's free pool
+// (it would be handed to the next session while the old owner is still installed).
+func c15SwitchVsPools(snap vP4Snap, a *vAgent) []mMismatch {
+	var out []mMismatch
+	bad := func(shape, f string, x ...interface{}) {
+		if len(out) < 6 {
+			out = append(out, mMismatch{"C15.R2", shape, fmt.Sprintf(f, x...)})
+		}
+	}
+	a.quiesced(func() {
+		up4, ok := a.iface.fp.(*UP4)
+		if !ok || up4.appMeterCellIDsPool == nil || len(up4.counters) == 0 || up4.counters[preQosCounterID].counterIDsPool == nil {
+			return
+		}
+		up4.tunnelPeerMu.Lock()
+		freePeer := map[uint64]bool{}
+		for _, id := range up4.tunnelPeerIDsPool {
+			freePeer[uint64(id)] = true
+		}
+		up4.tunnelPeerMu.Unlock()
+		up4.applicationMu.Lock()
+		freeApp := map[uint64]bool{}
+		for _, id := range up4.applicationIDsPool {
+			freeApp[uint64(id)] = true
+		}
+		up4.applicationMu.Unlock()
+		ctrPool := up4.counters[preQosCounterID].counterIDsPool
+		for _, e := range snap.Entries {
+			switch e.Table {
+			case "PreQosPipe.tunnel_peers":
+				if id := e.Match["tunnel_peer_id"].Val; freePeer[id] {
+					bad("tunnel-peer-id-installed-and-free", "tunnel peer id %d is in the free pool while the switch still holds its tunnel_peers entry (%s)", id, e.String())
+				}
+			case "PreQosPipe.sessions_downlink":
+				if id, ok := e.Params["tunnel_peer_id"]; ok && id != 0 && freePeer[id] {
+					bad("tunnel-peer-id-referenced-and-free", "tunnel peer id %d is in the free pool while an installed sessions_downlink entry forwards to it (%s)", id, e.String())
+				}
+				if m := e.Params["session_meter_idx"]; m != 0 && up4.sessMeterCellIDsPool.Contains(uint32(m)) {
+					bad("session-meter-cell-installed-and-free", "session_meter cell %d is in the free pool while an installed sessions entry carries it (%s)", m, e.String())
+				}
+			case "PreQosPipe.sessions_uplink":
+				if m := e.Params["session_meter_idx"]; m != 0 && up4.sessMeterCellIDsPool.Contains(uint32(m)) {
+					bad("session-meter-cell-installed-and-free", "session_meter cell %d is in the free pool while an installed sessions entry carries it (%s)", m, e.String())
+				}
+			case "PreQosPipe.applications":
+				if id := e.Params["app_id"]; freeApp[id] {
+					bad("application-id-installed-and-free", "application id %d is in the free pool while the switch still holds its applications entry (%s)", id, e.String())
+				}
+			case "PreQosPipe.terminations_uplink", "PreQosPipe.terminations_downlink":
+				if c, ok := e.Params["ctr_idx"]; ok && ctrPool.Contains(c) {
+					bad("counter-index-installed-and-free", "counter index %d is in the free pool while an installed terminations entry carries it (%s)", c, e.String())
+				}
+				if m, ok := e.Params["app_meter_idx"]; ok && m != 0 && up4.appMeterCellIDsPool.Contains(uint32(m)) {
+					bad("app-meter-cell-installed-and-free", "app_meter cell %d is in the free pool while an installed terminations entry carries it (%s)", m, e.String())
+				}
+				if id := e.Match["app_id"].Val; id != 0 && freeApp[id] {
+					bad("application-id-referenced-and-free", "application id %d is in the free pool while an installed terminations entry matches on it (%s)", id, e.String())
+				}
+			}
+		}
+	})
+	return out
+}
+
+// c15ShrinkPools takes most identifiers out of the free pools, as a UPF that serves many other sessions would have, and
+// keeps the lowest ones: an identifier that is freed although somebody holds it, or handed out twice, then meets its
+// other owner within a few requests instead of after hundreds of sessions. It returns how many ids were taken per pool.
+func c15ShrinkPools(a *vAgent, keep int) map[string]int {
+	taken := map[string]int{}
+	a.quiesced(func() {
+		up4, ok := a.iface.fp.(*UP4)
+		if !ok || up4.appMeterCellIDsPool == nil || len(up4.counters) == 0 || up4.counters[preQosCounterID].counterIDsPool == nil {
+			return
+		}
+		cp := up4.counters[preQosCounterID].counterIDsPool
+		for i := uint64(keep); i < up4.counters[preQosCounterID].maxSize; i++ {
+			if cp.Contains(i) {
+				cp.Remove(i)
+				taken["counter"]++
+			}
+		}
+		for i := uint32(keep + 1); i < 1024; i++ {
+			if up4.appMeterCellIDsPool.Contains(i) {
+				up4.appMeterCellIDsPool.Remove(i)
+				taken["app_meter"]++
+			}
+			if up4.sessMeterCellIDsPool.Contains(i) {
+				up4.sessMeterCellIDsPool.Remove(i)
+				taken["session_meter"]++
+			}
+		}
+		up4.tunnelPeerMu.Lock()
+		if n := len(up4.tunnelPeerIDsPool); n > 6 {
+			taken["tunnel_peer"] = n - 6
+			up4.tunnelPeerIDsPool = up4.tunnelPeerIDsPool[:6]
+		}
+		up4.tunnelPeerMu.Unlock()
+		up4.applicationMu.Lock()
+		if n := len(up4.applicationIDsPool); n > 6 {
+			taken["application"] = n - 6
+			up4.applicationIDsPool = up4.applicationIDsPool[:6]
+		}
+		up4.applicationMu.Unlock()
+	})
+	return taken
+}
+
 func TestVerif_C15(t *testing.T) {
 	res := vNewResult("C15")
 	defer res.finish(t)
@@ -200,8 +307,10 @@ func TestVerif_C15(t *testing.T) {
 	res.assume("a failed Write RPC applies none of its updates (the request is refused as a whole by the switch)")
 	scens := c15Scenarios()
 	allCodes := []codes.Code{codes.Internal, codes.Unavailable, codes.ResourceExhausted}
+	// per-update canonical codes (not ALREADY_EXISTS / NOT_FOUND, which a real switch only reports when they are true)
+	updCodes := []codes.Code{codes.Internal, codes.ResourceExhausted, codes.InvalidArgument, codes.PermissionDenied, codes.Unknown}
 	idx := 0
-	run := func(si int, sc []c15Step, faults map[int]codes.Code, label string) int {
+	run := func(si int, sc []c15Step, faults map[int]codes.Code, label string, style string, shrink bool) int {
 		o := vDefaultOpts(true, vEnv.addr(1))
 		a, err := vStartAgent(o)
 		if err != nil {
@@ -219,7 +328,17 @@ func TestVerif_C15(t *testing.T) {
 			res.inconclusive("association setup unanswered")
 			return 0
 		}
-		a.p4.armFaults(vP4Fault{FailRPC: faults})
+		var taken map[string]int
+		if shrink {
+			taken = c15ShrinkPools(a, 16)
+			res.event("runs_with_nearly_drained_pools", 1)
+		}
+		if style == "upd" {
+			// P4Runtime-style failure: the RPC is answered with per-update errors (status UNKNOWN + p4.Error details)
+			a.p4.armFaults(vP4Fault{FailUpd: faults})
+		} else {
+			a.p4.armFaults(vP4Fault{FailRPC: faults})
+		}
 		ups := map[int]uint64{}
 		seq := uint32(10)
 		var trace []string
@@ -285,7 +404,10 @@ func TestVerif_C15(t *testing.T) {
 			for _, x := range c15Exclusive(snap) {
 				res.violate(x.Rule, x.Shape, label+": "+x.What, w)
 			}
-			for _, x := range c15Conservation(a) {
+			for _, x := range c15Conservation(a, taken) {
+				res.violate(x.Rule, x.Shape, label+": "+x.What, w)
+			}
+			for _, x := range c15SwitchVsPools(snap, a) {
 				res.violate(x.Rule, x.Shape, label+": "+x.What, w)
 			}
 			res.event("switch_states_checked", 1)
@@ -303,7 +425,10 @@ func TestVerif_C15(t *testing.T) {
 		idx++
 		res.begin(idx, fmt.Sprintf("c15 scenario %d fault-free", si), nil)
 		// every shard needs W; the fault-free run is cheap
-		W = run(si, scens[si], nil, "fault-free")
+		W = run(si, scens[si], nil, "fault-free", "rpc", false)
+		if w2 := run(si, scens[si], nil, "fault-free, nearly drained pools", "rpc", true); w2 != W {
+			res.note(fmt.Sprintf("scenario %d: %d writes with full pools, %d with nearly drained pools", si, W, w2))
+		}
 		if W == 0 {
 			continue
 		}
@@ -314,14 +439,21 @@ func TestVerif_C15(t *testing.T) {
 				cs = allCodes
 			}
 			for _, c := range cs {
-				idx++
-				if !vEnv.mine(idx) {
-					continue
+				for _, style := range []string{"rpc", "upd"} {
+					idx++
+					if !vEnv.mine(idx) {
+						continue
+					}
+					shrink := (k+si)%2 == 0 || vEnv.thorough() && idx%2 == 0
+					cc := c
+					if style == "upd" {
+						cc = updCodes[(k+si)%len(updCodes)]
+					}
+					res.begin(idx, fmt.Sprintf("c15 scenario %d fail write %d with %s (%s) shrink=%v", si, k, cc, style, shrink), nil)
+					run(si, scens[si], map[int]codes.Code{k: cc}, fmt.Sprintf("scenario %d, write %d fails with %s (%s)", si, k, cc, style), style, shrink)
+					res.eval(1)
+					res.distinct(fmt.Sprintf("s%d/k%d/%s/%s", si, k, cc, style))
 				}
-				res.begin(idx, fmt.Sprintf("c15 scenario %d fail write %d with %s", si, k, c), nil)
-				run(si, scens[si], map[int]codes.Code{k: c}, fmt.Sprintf("scenario %d, write %d fails with %s", si, k, c))
-				res.eval(1)
-				res.distinct(fmt.Sprintf("s%d/k%d/%s", si, k, c))
 			}
 		}
 	}
@@ -338,7 +470,7 @@ func TestVerif_C15(t *testing.T) {
 			faults[1+rng.Intn(60)] = allCodes[rng.Intn(3)]
 		}
 		res.begin(idx, fmt.Sprintf("c15 multi-fault %d scenario %d %v", r, si, faults), nil)
-		run(si, scens[si], faults, fmt.Sprintf("scenario %d, writes %v fail", si, faults))
+		run(si, scens[si], faults, fmt.Sprintf("scenario %d, writes %v fail", si, faults), []string{"rpc", "upd"}[rng.Intn(2)], rng.Intn(2) == 0)
 		res.eval(1)
 		res.distinct(fmt.Sprintf("multi/s%d/n%d", si, len(faults)))
 	}
